@@ -52,4 +52,53 @@ CLAIMS.update({
         note=COMMON_NOTE + "Stat exactness over all reachable states rests on the correspondence until stat_spec is proved."),
 })
 
+CLAIMS.update({
+    'C01': dict(
+        text="The L0 state abs(l) is the content of the log. Proved in Lean (for every state satisfying the invariant Inv, every input): "
+             "publish appends exactly the stamped batch across rollover at any size; rollover and reads change no content; Consume shows "
+             "a prefix of the content. Correspondence: full observation (scan from OffsetOldest to NextOffset, NextOffset, Stat, directory "
+             "listing) after every step of generated histories with deletes, trims, compaction, GC, reopen with re-drawn options, index "
+             "removal and migrate, compared with the L1 model exactly and with the L0 list semantics.",
+        note=COMMON_NOTE + "Step theorems for delete and open (reachability of Inv through those ops) in progress; until they are in "
+             "Props/C01 those steps rest on the correspondence."),
+})
+
+CLAIMS.update({
+    'C09': dict(
+        text="Proved in Lean for an arbitrary hash function: on every state satisfying the invariant (with indexes carrying the key hashes "
+             "of their records), getByKey returns the last live message whose key is byte-equal (nil = empty), ErrNotFound if none, "
+             "ErrNoIndex without the index; consumeByKey returns a non-empty prefix of the live messages with that key, never another key, "
+             "ends at NextOffset. Correspondence: histories over a key set with nil, empty and real FNV-1a-64 colliding pairs; after every "
+             "step GetByKey/OffsetByKey for all keys of the set plus absent keys and ConsumeByKey from every cursor offset.",
+        note=COMMON_NOTE + "The radix tree (go-adaptive-radix-tree) is modelled as a map from hash to positions in insertion order (trusted). "
+             "KeysInv as an invariant of all reachable states is proved for derive-based producers (derive_keys); its preservation by "
+             "publish/open is in progress."),
+})
+
+CLAIMS.update({
+    'C11': dict(
+        text="Proved in Lean: in every state reached by any history, every index (the file of every segment and every loaded index) "
+             "lists exactly the offsets and byte positions of its segment's records; removing any subset of index files and reopening "
+             "with any options keeps the invariant and the content (hence every query result, by the read theorems). Correspondence: at "
+             "every close real segment.Find + Segment.Check on every segment, directory listing with sizes/versions, differential reopen "
+             "with index subsets removed, read-write and read-only, all queries incl. Stat.",
+        note=COMMON_NOTE + "Key hashes / timestamps of index items (KeysInv, TimesInv) are proved for derive-based producers; as invariants "
+             "of publish they rest on the correspondence (byte comparison by Segment.Check at every close) for now."),
+    'C12': dict(
+        text="Proved in Lean (delete_step): on every state satisfying the invariant and every offset set, Delete keeps the invariant and "
+             "satisfies DeleteOK in all outcomes of the swap (reader: dropped / rebased / same base; head: emptied / tail deleted / reopened): "
+             "reported messages are live, requested, complete; the new content is the old minus exactly them; NextOffset unchanged; size = "
+             "sum of storage sizes; relative offsets rejected; empty set a no-op. Correspondence: biased offset sets (last message, whole "
+             "head, whole reader segment, first of a segment, already deleted, unassigned, negative, everything), DeleteMulti.",
+        note=COMMON_NOTE + "DeleteMulti-removes-all over live offsets is checked on the implementation's results (relation DeleteMultiOK); "
+             "its proof from delete_step is in progress."),
+    'C17': dict(
+        text="Proved in Lean: abs ignores versions, so mixed-version logs satisfy the same read theorems; Migrate to either version while "
+             "closed and reopening with any version options keep the invariant, the live sequence and NextOffset; delete-by-rewrite keeps "
+             "content for every KeepRewriteVersion/NewSegmentsVersion; after migration every log is in the target version; migrate is "
+             "idempotent. Correspondence: histories where every reopen re-draws the three version options and may Migrate; version byte "
+             "and size of every file observed.",
+        note=COMMON_NOTE),
+})
+
 NOT_APPLICABLE = []
